@@ -504,6 +504,10 @@ func (env *SpecEnv) call(e *SExpr) SpecVal {
 			v := env.eval(args[0])
 			al := x.get(env.state(), allocKey, ArrSort(SRef, SBool))
 			return SpecVal{t: Sel(al, v.t), typ: tBool}
+		case "allocatedArr":
+			v := env.eval(args[0])
+			al := x.get(env.state(), arrAllocKey, ArrSort(SInt, SBool))
+			return SpecVal{t: Sel(al, SArr(v.t)), typ: tBool}
 		case "arr", "off":
 			v := env.eval(args[0])
 			if fn.Name == "arr" {
